@@ -59,6 +59,9 @@ type PkgDecl struct {
 	Hidden      bool       // the package has an unexported @immutable type u<qual>, handed out by GetU<Qual>()
 	HiddenMutB  bool       // ... whose field B is @mutable
 	UnsafeFirst bool       // its files import "unsafe" before the world imports
+	SplitDecl   bool       // methods and functions live in methods.go, types in decl.go
+	Grouped     bool       // a grouped type declaration: group doc shared, one spec with its own doc
+	BlankImport int        // index of an earlier package imported only for its side effects (import _), or -1
 	Reexports   []Reexport // GetX<Type>() returning a type of an imported package
 	Imports     []int
 	AliasImport bool // importers write an explicit alias
@@ -181,6 +184,9 @@ func Generate(t Drawer, opt GenOpt) (*World, *Meta) {
 		}
 		pd.UsesFirst = d.chance(1, 4)
 		pd.UnsafeFirst = opt.StdImports && d.chance(1, 5)
+		pd.SplitDecl = d.chance(1, 4)
+		pd.Grouped = d.chance(1, 4)
+		pd.BlankImport = -1
 		if pd.TwinOf >= 0 {
 			src := m.Decls[pd.TwinOf]
 			pd.Pad, pd.UsesFirst, pd.AliasImport = src.Pad, src.UsesFirst, true
@@ -203,6 +209,11 @@ func Generate(t Drawer, opt GenOpt) (*World, *Meta) {
 			}
 			if len(pd.Imports) == 0 && d.chance(2, 3) {
 				pd.Imports = append(pd.Imports, d.Draw(i))
+			}
+			if d.chance(1, 6) {
+				if k := d.Draw(i); !contains(pd.Imports, k) {
+					pd.BlankImport = k
+				}
 			}
 		}
 		m.Decls = append(m.Decls, pd)
@@ -318,6 +329,7 @@ func cloneDecls(m *Meta, pd *PkgDecl) {
 	}
 	pd.FuncTest, pd.FuncPkgOnly = src.FuncTest, src.FuncPkgOnly
 	pd.Hidden, pd.HiddenMutB = src.Hidden, src.HiddenMutB
+	pd.SplitDecl, pd.Grouped = src.SplitDecl, src.Grouped
 	pd.Reexports = append([]Reexport(nil), src.Reexports...)
 }
 
@@ -486,8 +498,14 @@ func importLinesStd(s *src, m *Meta, deps []int, withUnsafe bool) {
 	s.ln("")
 }
 
-func renderDecl(d drw, w *World, m *Meta, pd *PkgDecl) File {
+func renderDecl(d drw, w *World, m *Meta, pd *PkgDecl) []File {
 	s := &src{}
+	fs := s // where constructors, methods and functions go
+	if pd.SplitDecl {
+		fs = &src{}
+		fs.ln("package %s", pd.Name)
+		fs.ln("")
+	}
 	if !m.Clean && d.chance(1, 25) {
 		s.ln("// @ignore IMM03")
 	}
@@ -567,45 +585,70 @@ func renderDecl(d drw, w *World, m *Meta, pd *PkgDecl) File {
 		s.ln("}")
 		s.ln("")
 		if td.NewTest {
-			s.ln("// @testonly")
+			fs.ln("// @testonly")
 		}
-		pkgOnlyLines(s, "", td.NewPkgOnly)
-		s.ln("func New%s() *%s {", td.Name, td.Name)
-		s.ln("\tt := &%s{Items: []int{0}, M: map[string]int{}}", td.Name)
-		s.ln("\tt.A = 1")
-		s.ln("\treturn t")
-		s.ln("}")
-		s.ln("")
-		s.ln("func Make%s() %s {", td.Name, td.Name)
-		s.ln("\tvar t %s", td.Name)
-		s.ln("\tt.B++")
-		s.ln("\treturn t")
-		s.ln("}")
-		s.ln("")
+		pkgOnlyLines(fs, "", td.NewPkgOnly)
+		fs.ln("func New%s() *%s {", td.Name, td.Name)
+		fs.ln("\tt := &%s{Items: []int{0}, M: map[string]int{}}", td.Name)
+		fs.ln("\tt.A = 1")
+		fs.ln("\treturn t")
+		fs.ln("}")
+		fs.ln("")
+		fs.ln("func Make%s() %s {", td.Name, td.Name)
+		fs.ln("\tvar t %s", td.Name)
+		fs.ln("\tt.B++")
+		fs.ln("\treturn t")
+		fs.ln("}")
+		fs.ln("")
 		for _, cn := range td.CtorNames {
 			if cn == "new"+td.Name {
 				// an unexported constructor that really exists (it is invisible in export
 				// data unless something exported refers to it)
-				s.ln("func new%s() *%s { return &%s{} }", td.Name, td.Name, td.Name)
-				s.ln("")
+				fs.ln("func new%s() *%s { return &%s{} }", td.Name, td.Name, td.Name)
+				fs.ln("")
 				break
 			}
 		}
-		s.ln("// Get%s is never annotated.", td.Name)
-		s.ln("func Get%s() *%s { return New%s() }", td.Name, td.Name, td.Name)
-		s.ln("")
+		fs.ln("// Get%s is never annotated.", td.Name)
+		fs.ln("func Get%s() *%s { return New%s() }", td.Name, td.Name, td.Name)
+		fs.ln("")
 		if td.PMTest {
-			s.ln("// @testonly")
+			fs.ln("// @testonly")
 		}
-		pkgOnlyLines(s, "", td.PMPkgOnly)
-		s.ln("func (t *%s) PM() int { return t.A }", td.Name)
-		s.ln("")
+		pkgOnlyLines(fs, "", td.PMPkgOnly)
+		fs.ln("func (t *%s) PM() int { return t.A }", td.Name)
+		fs.ln("")
 		if td.VMTest {
-			s.ln("// @testonly")
+			fs.ln("// @testonly")
 		}
-		pkgOnlyLines(s, "", td.VMPkgOnly)
-		s.ln("func (t %s) VM() int { return t.B }", td.Name)
+		pkgOnlyLines(fs, "", td.VMPkgOnly)
+		fs.ln("func (t %s) VM() int { return t.B }", td.Name)
+		fs.ln("")
+	}
+	if pd.Grouped {
+		// a grouped declaration: the group's doc comment applies to the spec without a doc of its own
+		s.ln("// @immutable")
+		s.ln("// @constructor NewG%sa, NewG%sb", pd.Qual, pd.Qual)
+		s.ln("type (")
+		s.ln("\tG%sa struct {", pd.Qual)
+		s.ln("\t\tA int")
+		s.ln("\t\t// @mutable")
+		s.ln("\t\tB int")
+		s.ln("\t}")
 		s.ln("")
+		s.ln("\t// G%sb has a doc comment of its own.", pd.Qual)
+		s.ln("\t// @testonly")
+		s.ln("\tG%sb struct {", pd.Qual)
+		s.ln("\t\tA int")
+		s.ln("\t\tB int")
+		s.ln("\t}")
+		s.ln(")")
+		s.ln("")
+		fs.ln("func NewG%sa() *G%sa { return &G%sa{} }", pd.Qual, pd.Qual, pd.Qual)
+		fs.ln("func NewG%sb() *G%sb { return &G%sb{} }", pd.Qual, pd.Qual, pd.Qual)
+		fs.ln("func GetG%sa() *G%sa { return NewG%sa() }", pd.Qual, pd.Qual, pd.Qual)
+		fs.ln("func GetG%sb() *G%sb { return NewG%sb() }", pd.Qual, pd.Qual, pd.Qual)
+		fs.ln("")
 	}
 	if pd.Hidden {
 		// an unexported annotated type whose values leave the package
@@ -627,18 +670,22 @@ func renderDecl(d drw, w *World, m *Meta, pd *PkgDecl) File {
 		s.ln("")
 	}
 	if pd.FuncTest {
-		s.ln("// @testonly")
+		fs.ln("// @testonly")
 	}
-	pkgOnlyLines(s, "", pd.FuncPkgOnly)
-	s.ln("func %s() int { return 7 }", pd.FuncName())
-	s.ln("")
+	pkgOnlyLines(fs, "", pd.FuncPkgOnly)
+	fs.ln("func %s() int { return 7 }", pd.FuncName())
+	fs.ln("")
 	for _, r := range pd.Reexports {
 		dep := m.Decls[r.Dep]
 		s.ln("// %s hands out a type of %s.", r.Fn, dep.Path)
 		s.ln("func %s() *%s.%s { return %s.Get%s() }", r.Fn, dep.Qual, r.Type, dep.Qual, r.Type)
 		s.ln("")
 	}
-	return File{Name: "decl.go", Src: s.b.String()}
+	files := []File{{Name: "decl.go", Src: s.b.String()}}
+	if pd.SplitDecl {
+		files = append(files, File{Name: "methods.go", Src: fs.b.String()})
+	}
+	return files
 }
 
 type shape struct {
@@ -690,6 +737,10 @@ func renderUses(d drw, w *World, m *Meta, pd *PkgDecl, fileName string, nfuncs i
 	s := &src{}
 	s.ln("package %s", pd.Name)
 	s.ln("")
+	if pd.BlankImport >= 0 && fileName == "use.go" {
+		s.ln("import _ %q // imported for its side effects only", m.Decls[pd.BlankImport].Path)
+		s.ln("")
+	}
 	importLinesStd(s, m, pd.Imports, pd.UnsafeFirst)
 	if pd.UnsafeFirst {
 		s.ln("var _ = unsafe.Sizeof(0)")
@@ -766,6 +817,24 @@ func renderUses(d drw, w *World, m *Meta, pd *PkgDecl, fileName string, nfuncs i
 				m.Uses = append(m.Uses, UseSite{ID: len(m.Uses), Pkg: pd.Index, File: fileName, Line: line, Dep: r.Dep, Shape: "indirect-assign", Text: "Q." + r.Fn + "().A = 11", Type: r.Type})
 				line = s.ln("\t_ = %s%s().PM()", qual, r.Fn)
 				m.Uses = append(m.Uses, UseSite{ID: len(m.Uses), Pkg: pd.Index, File: fileName, Line: line, Dep: r.Dep, Shape: "indirect-call", Text: "_ = Q." + r.Fn + "().PM()", Type: r.Type})
+			}
+			s.ln("}")
+			s.ln("")
+		}
+		if dep.Grouped && d.chance(2, 3) {
+			s.ln("func grp_%s_%d() {", tag, fn)
+			fn++
+			for _, g := range []string{"a", "b"} {
+				gt := "G" + dep.Qual + g
+				s.ln("\tg%s := %sGet%s()", g, qual, gt)
+				for _, l := range []string{"g" + g + ".A = 31", "g" + g + ".B++", "_ = " + qual + gt + "{}"} {
+					if !d.chance(2, 3) {
+						continue
+					}
+					line := s.ln("\t%s", l)
+					m.Uses = append(m.Uses, UseSite{ID: len(m.Uses), Pkg: pd.Index, File: fileName, Line: line, Dep: j, Shape: "grouped:" + g, Text: strings.Replace(l, qual+gt, "Q."+gt, 1), Type: gt})
+				}
+				s.ln("\t_ = g%s", g)
 			}
 			s.ln("}")
 			s.ln("")
@@ -850,15 +919,36 @@ func renderPkg(d drw, w *World, m *Meta, pd *PkgDecl) {
 	for _, j := range pd.Imports {
 		p.Imports = append(p.Imports, m.Decls[j].Path)
 	}
+	if pd.BlankImport >= 0 {
+		p.Imports = append(p.Imports, m.Decls[pd.BlankImport].Path)
+	}
 	decl := renderDecl(d, w, m, pd)
 	use := renderUses(d, w, m, pd, "use.go", d.rng(1, 2), true)
 	if pd.UsesFirst {
-		p.Files = append(p.Files, use, decl)
+		p.Files = append(append(p.Files, use), decl...)
 	} else {
-		p.Files = append(p.Files, decl, use)
+		p.Files = append(append(p.Files, decl...), use)
 	}
 	if d.chance(1, 4) {
 		p.Files = append(p.Files, renderUses(d, w, m, pd, "more.go", 1, d.chance(1, 2)))
+	}
+	if contains(pd.Imports, 0) && len(ctorFnTaken[pd.Index]) == 0 && d.chance(1, 4) {
+		// a dot-import: the names of package 0 are visible without qualifier, also to
+		// an @implements comment (only if nothing it exports can collide here)
+		base := m.Decls[0]
+		clash := false
+		for _, t := range base.Types {
+			if t.Name == "Shared" {
+				clash = true
+			}
+		}
+		if !clash {
+			var b strings.Builder
+			fmt.Fprintf(&b, "package %s\n\nimport . %q\n\n", pd.Name, base.Path)
+			fmt.Fprintf(&b, "// Dot%s names an interface of the dot-imported package without qualifier.\n// @implements &I%s\ntype Dot%s struct{}\n\n", pd.Qual, base.Types[0].Name, pd.Qual)
+			fmt.Fprintf(&b, "func (d *Dot%s) PM() int { return %s() }\nfunc (d Dot%s) VM() int  { return 0 }\n", pd.Qual, base.AnchorName(), pd.Qual)
+			p.Files = append(p.Files, File{Name: "dot.go", Src: b.String()})
+		}
 	}
 	testType := ""
 	if d.chance(1, 4) {
